@@ -762,6 +762,37 @@ func genG12(emit func(tcase)) {
 	}
 }
 
+// ---------------------------------------------------------------- G13/G14: literals that are started or created elsewhere
+
+// G13: an iterator literal sees the scope where it was written wherever it is started with `new`.
+// G14: a function literal given to Str#eval is written in the scope that calls eval (later reassignments and
+// later definitions there are visible; assignments made by the evaluated text stay inside it).
+func genG13(emit func(tcase)) {
+	mk := "mk := {|step| <{|i| yield i if i < 40; recur(i + step)}>}\n"
+	for _, st := range []int{10, 5} {
+		want := fmt.Sprintf("[0, %d, %d]", st, 2*st)
+		take := ".{|it| [it.next, it.next, it.next]}"
+		emit(tcase{Family: "G13/new-at-top-level-with-other-step", Src: mk + "step := 1\n" + fmt.Sprintf("mk(%d).new(0)", st) + take, Val: want, NT: true})
+		emit(tcase{Family: "G13/new-in-function-with-same-named-parameter", Src: mk + "start := {|gen, step| gen.new(0)}\n" + fmt.Sprintf("start(mk(%d), 1000)", st) + take, Val: want, NT: true})
+		emit(tcase{Family: "G13/new-in-method", Src: mk + "o := {step: 77, start: m{|gen| step := 3; gen.new(0)}}\n" + fmt.Sprintf("o.start(mk(%d))", st) + take, Val: want, NT: true})
+		emit(tcase{Family: "G13/new-in-chain-block", Src: mk + fmt.Sprintf("[1000]@{|step| mk(%d).new(0)}[0]", st) + take, Val: want, NT: true})
+		emit(tcase{Family: "G13/A-elsewhere", Src: mk + "step := 1\n" + fmt.Sprintf("{|step| mk(%d).new(0).A[0:3]}(500)", st), Val: want, NT: true})
+		emit(tcase{Family: "G13/new-where-written", Src: fmt.Sprintf("{|step| <{|i| yield i if i < 40; recur(i + step)}>.new(0)}(%d)", st) + take, Val: want, NT: true})
+	}
+	emit(tcase{Family: "G13/caller-local-not-visible", Src: "leaky := {|| <{|i| yield secret}>}\nstarter := {|gen| secret := 5; gen.new(0)}\nstarter(leaky()).try.next.err?", Val: "true", NT: true})
+	emit(tcase{Family: "G13/copy-started-elsewhere", Src: "mk := {|step| <{|i| yield i if i < 40; recur(i + step)}>.new(0)}\nit := mk(4)\n{|step| it.new(1).A[0:3]}(9)", Val: "[1, 5, 9]", NT: true})
+}
+
+func genG14(emit func(tcase)) {
+	emit(tcase{Family: "G14/eval-literal-sees-later-reassignment", Src: "rate := 10\nprice := \"{|n| n * rate}\".eval\na := price(2)\nrate := 20\n[a, price(2)]", Val: "[20, 40]", NT: true})
+	emit(tcase{Family: "G14/eval-literal-sees-later-definition", Src: "twice := \"{|n| double(n)}\".eval\ndouble := {|n| n * 2}\ntwice(21)", Val: "42", NT: true})
+	emit(tcase{Family: "G14/eval-literal-in-function", Src: "unit := 1\nmk := {|k| f := \"{|n| [n * k, unit]}\".eval; k += 1; f}\ng := mk(3)\nunit := 2\ng(10)", Val: "[40, 2]", NT: true})
+	emit(tcase{Family: "G14/eval-assignment-stays-inside", Src: "rate := 10\n[\"rate := 99; rate\".eval, rate]", Val: "[99, 10]", NT: true})
+	emit(tcase{Family: "G14/eval-sees-caller-locals", Src: "{|a| b := a + 1; \"a * 10 + b\".eval}(3)", Val: "34", NT: true})
+	emit(tcase{Family: "G14/evalEnv-does-not-see-caller-locals", Src: "{|a| \"c := 1\".evalEnv.keys}(3)", Val: "[\"c\"]", NT: true})
+	emit(tcase{Family: "G14/curry", Src: "add := {|a, b| a + b}\n(add.curry)(1)(2)", Val: "3", NT: true})
+}
+
 // ---------------------------------------------------------------- judging
 
 func judge(c *core.Ctx, t tcase, o panrun.Obs) {
@@ -812,6 +843,8 @@ func gen(thorough bool, emit func(tcase)) {
 	genG9(emit)
 	genG11(emit)
 	genG12(emit)
+	genG13(emit)
+	genG14(emit)
 	if thorough {
 		genG5(3, emit)
 	} else {
